@@ -332,6 +332,7 @@ func (c *checker) writeEvidence(agg *aggregate, rule string, assumptions []strin
 	if os.Getenv("VERIF_REPO") != "" {
 		evDir = os.TempDir() + "/verif-mutant-evidence"
 	}
+	fmt.Printf("%s %s: %d evaluations (%d distinct non-trivial) in %.0fs, violations=%d\n", c.prop, c.tier, agg.Runs, agg.Distinct, wall, viol)
 	os.MkdirAll(evDir, 0o755)
 	b, _ := json.MarshalIndent(ev, "", " ")
 	if err := os.WriteFile(evDir+"/"+c.prop+".json", b, 0o644); err != nil {
